@@ -249,6 +249,11 @@ def run(ctx):
                         ok = False
         if not ok:
             fs.append(fnd("C13.TABLE", v, "From<Value> does not build floats with Number::from_f64(the same float)"))
+        # whatever the formulation: what an array / an object converts to is built from that array / object (never a constant)
+        for dv_ in ("Sequence", "Map"):
+            for rb_, rt_ in results_in(v, arms.get(dv_, set())):
+                if not term_mentions(rt_, lambda y, d_=dv_: payload_of(y, d_)):
+                    fs.append(fnd("C13.REC", v, "a %s is converted to a value that is not built from it (%s)" % ("sequence" if dv_ == "Sequence" else "map", fmt(rt_)[:80]), rb_))
         # Sequence: Array(collect(map(From::from, map(into_value, into_iter(seq)))))
         rs = results_in(v, arms.get("Sequence", set()))
         ok = False
